@@ -96,7 +96,8 @@ pub struct Req {
     pub handler_delay_ms: u32,
     pub fate: Verdict,
     /// how the client that sends this request was obtained: 0 = `new` + `set_timeout`, 1 = a clone of a
-    /// configured client, 2 = a clone of a clone, 3 = `set_timeout(10 T)` replaced by `set_timeout(T)`
+    /// configured client, 2 = a clone of a clone, 3 = `set_timeout(10 T)` replaced by `set_timeout(T)`, 4 = a clone and a
+    /// `new_client` handle of the same channel are given much longer timeouts after this one was configured
     pub client_form: u8,
     /// which sending method is used: 0 = `send`, 1 = `create_rpc_context().set_header(..).send`, 2 = `send_owned`
     pub route: u8,
@@ -131,7 +132,7 @@ fn gen_req(src: &mut Src, t: u64) -> Req {
         reply_len: *src.pick(&[0usize, 1, 100, 5_000, 70_000]),
         handler_delay_ms: if src.chance(1, 4) { around(src) as u32 } else { 0 },
         fate,
-        client_form: src.weighted(&[3, 3, 1, 1]) as u8,
+        client_form: src.weighted(&[3, 3, 1, 1, 2]) as u8,
         route: src.weighted(&[3, 1, 1]) as u8,
         fail_with: *src.pick(&[0u8, 0, 0, 0, 0, 0, 1, 1, 2, 3, 4, 5]),
     }
@@ -172,7 +173,7 @@ impl Prop for Stalled {
             "client_timeout_ms": case.timeout_ms,
             "waves_of_concurrent_requests": case.waves.iter().map(|w| w.iter().map(|r| json!({
                 "payload_len": r.payload_len, "reply_len": r.reply_len, "handler_delay_ms": r.handler_delay_ms, "fate": format!("{:?}", r.fate),
-                "client": (["new+set_timeout", "clone", "clone of clone", "set_timeout twice"][r.client_form as usize]),
+                "client": (["new+set_timeout", "clone", "clone of clone", "set_timeout twice", "sibling handles on the same channel get longer timeouts afterwards"][r.client_form as usize]),
                 "route": (["send", "context+header send", "send_owned"][r.route as usize]),
                 "handler_replies": (["ok", "error: service unavailable", "error: internal", "error: invalid payload", "error: connection", "error: timeout"][r.fail_with as usize]),
             })).collect::<Vec<_>>()).collect::<Vec<_>>(),
@@ -181,7 +182,7 @@ impl Prop for Stalled {
 
     fn rule(&self) -> &'static str {
         "1-3 waves of 1-4 concurrent requests from a real RpcClient with a timeout T in {0,0.5,2,5 s} (obtained by new+set_timeout, \
-         by cloning a configured client once or twice, or by replacing an earlier timeout; sent with send, send_owned or a \
+         by cloning a configured client once or twice, by replacing an earlier timeout, or with sibling handles of the same channel that are given longer timeouts afterwards; sent with send, send_owned or a \
          context with a header) to a real server \
          state over the in-process transport; per request a generated fate: deliver, reply head at once but body \
          stalled by d, request delayed by d, request dropped, reply dropped, duplicated, plus optional handler \
@@ -210,9 +211,19 @@ fn make_client(addr: SocketAddr, t: Duration, form: u8) -> RpcClient<Echo> {
             drop(base);
             c.clone()
         },
-        _ => {
+        3 => {
             base.set_timeout(t * 10);
             base.set_timeout(t);
+            base
+        },
+        _ => {
+            // a sibling handle on the same channel is given a much longer timeout afterwards; this handle keeps its own
+            base.set_timeout(t);
+            let mut sibling = base.clone();
+            sibling.set_timeout(t * 10 + Duration::from_secs(30));
+            let mut other = base.new_client::<Echo>();
+            other.set_timeout(t * 10 + Duration::from_secs(60));
+            drop((sibling, other));
             base
         },
     }
